@@ -58,8 +58,22 @@ func TestVerifSelfTest(t *testing.T) {
 	inv := func() []func() {
 		a, b = sync.Mutex{}, sync.Mutex{}
 		return []func(){
-			func() { vhook.P(952); a.Lock(); vhook.P(953); b.Lock(); b.Unlock(); a.Unlock() },
-			func() { vhook.P(954); b.Lock(); vhook.P(955); a.Lock(); a.Unlock(); b.Unlock() },
+			func() {
+				vhook.P(952)
+				a.Lock()
+				vhook.P(953)
+				b.Lock()
+				b.Unlock()
+				a.Unlock()
+			},
+			func() {
+				vhook.P(954)
+				b.Lock()
+				vhook.P(955)
+				a.Lock()
+				a.Unlock()
+				b.Unlock()
+			},
 		}
 	}
 	var deadlocks int64
